@@ -39,6 +39,15 @@
      "deaf_in_run" a notification that arrives while the processor is running
                    is dropped ("a running component is awake anyway")
 
+     "skip_idle"   a wakeup that fires at the instant of a run that reported
+                   "no progress" resets the guard but does not run the processor
+
+   The processor reports whether it made progress (the boolean result of
+   Process).  The statement does not let the obligation depend on that answer,
+   so it is a free boolean of every run here (`idle`): WakeNoLaterThan is the
+   same whatever the runs report.  The mechanism as found ignores it; the
+   variable idleAt exists only for the "skip_idle" control.
+
    While the processor runs it may not only ask for wakeups: a message may be
    delivered to one of its ports, or one of its ports may become free, at that
    very moment (a loop-back caused by the processor itself, or another handler
@@ -64,8 +73,9 @@ VARIABLES now,      \* engine time
           queue,    \* mechanism: queued wakeup events, [Times -> Nat] (a bag)
           pending,  \* mechanism: the guard (NoWake = none)
           due,      \* abstract: outstanding obligations
+          idleAt,   \* control "skip_idle" only: instant of the last run if it reported no progress, else NoWake
           last
-vars == <<now, queue, pending, due, last>>
+vars == <<now, queue, pending, due, idleAt, last>>
 
 RECURSIVE SumTo(_, _)
 SumTo(f, k) == IF k = 0 THEN f[0] ELSE f[k] + SumTo(f, k - 1)
@@ -75,8 +85,8 @@ Earliest(q) == CHOOSE x \in Times : q[x] > 0 /\ \A y \in Times : q[y] > 0 => x <
 St  == [now |-> now,  queue |-> queue,  pending |-> pending,  due |-> due]
 St2 == [now |-> now', queue |-> queue', pending |-> pending', due |-> due']
 
-Init == /\ now = 0 /\ queue = [x \in Times |-> 0] /\ pending = NoWake /\ due = {}
-        /\ last = [op |-> "new", d |-> 0, at |-> 0, reqs |-> <<>>]
+Init == /\ now = 0 /\ queue = [x \in Times |-> 0] /\ pending = NoWake /\ due = {} /\ idleAt = NoWake
+        /\ last = [op |-> "new", d |-> 0, at |-> 0, reqs |-> <<>>, idle |-> FALSE]
         /\ PrintT(<<"INIT", ToJson(St)>>)
 
 \* one wake request for time t applied to a (pending, queue, due) record
@@ -91,12 +101,12 @@ Become(m) == pending' = m.pending /\ queue' = m.queue /\ due' = m.due
 \* a request from outside the processor (another handler, the test bench)
 ExtReq(d) == /\ now + d <= TMax
              /\ LET m == Request(Cur, now + d) IN QSize(m.queue) <= MaxEv /\ Become(m)
-             /\ UNCHANGED now
-             /\ last' = [op |-> "req", d |-> d, at |-> now, reqs |-> <<>>]
+             /\ UNCHANGED <<now, idleAt>>
+             /\ last' = [op |-> "req", d |-> d, at |-> now, reqs |-> <<>>, idle |-> FALSE]
 
 Notify(kind) == /\ LET m == Request(Cur, now) IN QSize(m.queue) <= MaxEv /\ Become(m)
-                /\ UNCHANGED now
-                /\ last' = [op |-> kind, d |-> 0, at |-> now, reqs |-> <<>>]
+                /\ UNCHANGED <<now, idleAt>>
+                /\ last' = [op |-> kind, d |-> 0, at |-> now, reqs |-> <<>>, idle |-> FALSE]
 
 \* what can happen while the processor runs: a wake request now + d, or a
 \* notification (receive / port free)
@@ -112,37 +122,40 @@ RECURSIVE InRuns(_, _, _)
 InRuns(m, tau, xs) == IF xs = <<>> THEN m ELSE InRuns(InRun(m, tau, Head(xs)), tau, Tail(xs))
 
 \* the engine dispatches the earliest queued wakeup; the processor runs at that
-\* time; ds is what happens while it runs
+\* time; ds is what happens while it runs, idle is what it reports afterwards
 DeltaSeqs == UNION {[1..k -> InOps] : k \in 0..MaxReq}
-Dispatch(ds) ==
+Dispatch(ds, idle) ==
   /\ QSize(queue) > 0
-  /\ LET tau == Earliest(queue)
-         m0  == [pending |-> IF Guard = "no_reset" THEN pending ELSE NoWake,
-                 queue   |-> [queue EXCEPT ![tau] = @ - 1],
-                 due     |-> Discharge(due, tau)]
-         m1  == InRuns(m0, tau, ds)
+  /\ LET tau  == Earliest(queue)
+         skip == Guard = "skip_idle" /\ idleAt = tau     \* control only: the processor is not run
+         m0   == [pending |-> IF Guard = "no_reset" THEN pending ELSE NoWake,
+                  queue   |-> [queue EXCEPT ![tau] = @ - 1],
+                  due     |-> IF skip THEN due ELSE Discharge(due, tau)]
+         m1   == InRuns(m0, tau, ds)
      IN /\ \A i \in 1..Len(ds) : OpTime(tau, ds[i]) <= TMax
+        /\ skip => (ds = <<>> /\ idle)
         /\ QSize(m1.queue) <= MaxEv
         /\ now' = tau
         /\ Become(m1)
-        /\ last' = [op |-> "dispatch", d |-> 0, at |-> tau, reqs |-> ds]
+        /\ idleAt' = (IF Guard = "skip_idle" /\ (idle \/ skip) THEN tau ELSE NoWake)
+        /\ last' = [op |-> "dispatch", d |-> 0, at |-> tau, reqs |-> ds, idle |-> idle]
 
 \* the clock moves on when nothing at or before `now` is left to dispatch
 Tick == /\ now < MaxT
         /\ \A x \in Times : queue[x] > 0 => x > now
         /\ now' = now + 1
-        /\ UNCHANGED <<queue, pending, due>>
-        /\ last' = [op |-> "tick", d |-> 0, at |-> now + 1, reqs |-> <<>>]
+        /\ UNCHANGED <<queue, pending, due, idleAt>>
+        /\ last' = [op |-> "tick", d |-> 0, at |-> now + 1, reqs |-> <<>>, idle |-> FALSE]
 
 Next == \/ \E d \in 0..MaxD : ExtReq(d)
         \/ Notify("notify_recv") \/ Notify("notify_free")
-        \/ \E ds \in DeltaSeqs : Dispatch(ds)
+        \/ \E ds \in DeltaSeqs, idle \in BOOLEAN : Dispatch(ds, idle)
         \/ Tick
 Spec == Init /\ [][Next]_vars
 
 ---------------------------------------------------------------------------
 TypeOK == /\ now \in Times /\ queue \in [Times -> 0..MaxEv]
-          /\ pending \in Times \cup {NoWake} /\ due \subseteq Times
+          /\ pending \in Times \cup {NoWake} /\ due \subseteq Times /\ idleAt \in Times \cup {NoWake}
 
 (* WakeNoLaterThan *)
 NoOverdue == NoOverdueAt(due, now)
@@ -156,6 +169,6 @@ Quiescent   == QSize(queue) = 0 => due = {}
 
 TimeMonotone == [][now' >= now]_vars
 
-View == <<now, queue, pending, due>>
+View == <<now, queue, pending, due, idleAt>>
 Emit == PrintT(<<"EDGE", ToJson([s |-> St, a |-> last', t |-> St2])>>)
 =============================================================================
